@@ -1440,4 +1440,14 @@ theorem argOf_shape (name line arg : Str) :
         simp only [List.cons_append, List.cons.injEq] at h
         exact absurd h.1 hc
 
+/-! ## 8. a concrete document for the non-vacuity examples -/
+
+/-- a three-file document, nested two deep, with repeats, case variants and duplicates -/
+def demoFS : FS := fsOf [
+  ("t.aux".toList, ["\\relax ".toList, "\\citation{a,B}".toList, "\\bibstyle{plain}".toList,
+                    "\\@input{u.aux}".toList, "\\citation{A}".toList, "\\bibstyle{alpha}".toList,
+                    "\\bibdata{x,y}".toList]),
+  ("u.aux".toList, ["\\citation{b}".toList, "\\@input{v.aux}".toList, "\\bibdata{z}".toList]),
+  ("v.aux".toList, ["\\citation{a}{c}".toList, "\\citationx{q}".toList])]
+
 end Pybtex.Aux
